@@ -3,7 +3,7 @@ use std::cmp::Ordering;
 
 use proptest::prelude::*;
 use serde::{Deserialize, Serialize};
-use tevec::prelude::{unit, Cast, DateTime, IsNone, Time, TimeDelta};
+use tevec::prelude::{unit, Cast, DateTime, IsNone, Number, Time, TimeDelta};
 use tvh::engine::{fail, main_for, sub, sub_enum, CheckResult, Fail, Obs, Property, Tier};
 
 // ---------------------------------------------------------------------------------------------
@@ -419,8 +419,63 @@ struct TableCase {
     table: u8,
 }
 
+/// the `Number` conversion helpers (f32(), f64(), i32(), i64(), usize(), to::<U>(), fromas) are the
+/// same numeric conversions as `as`, on every pool value of every numeric type
+macro_rules! number_row {
+    ($S:ty, $pool:expr) => {{
+        let name = stringify!($S);
+        for x in $pool {
+            let x: $S = x;
+            macro_rules! same {
+                ($what:expr, $got:expr, $want:expr) => {
+                    if $got.bits() != $want.bits() {
+                        return fail(format!("number:{}:{}", name, $what), format!("{:?}.{} = {:?}, `as` gives {:?}", x, $what, $got, $want));
+                    }
+                };
+            }
+            same!("f32()", Number::f32(x), (x as f32));
+            same!("f64()", Number::f64(x), (x as f64));
+            same!("i32()", Number::i32(x), (x as i32));
+            same!("i64()", Number::i64(x), (x as i64));
+            same!("usize()", Number::usize(x), (x as usize));
+            same!("to::<f64>()", x.to::<f64>(), (x as f64));
+            same!("to::<i32>()", x.to::<i32>(), (x as i32));
+            same!("to::<u64>()", x.to::<u64>(), (x as u64));
+            same!("fromas::<f32>", <f32 as Number>::fromas(x), (x as f32));
+            same!("fromas::<i64>", <i64 as Number>::fromas(x), (x as i64));
+            same!("fromas::<usize>", <usize as Number>::fromas(x), (x as usize));
+            // min_with / max_with pick one of their arguments by value (null-free arguments)
+            if !IsNone::is_none(&x) {
+                for y in $pool {
+                    let y: $S = y;
+                    if IsNone::is_none(&y) {
+                        continue;
+                    }
+                    let (lo, hi) = (x.min_with(y), x.max_with(y));
+                    if !(lo <= x && lo <= y && hi >= x && hi >= y && (lo == x || lo == y) && (hi == x || hi == y)) {
+                        return fail(format!("number:{}:min_max_with", name), format!("min_with / max_with of {:?}, {:?} = {:?}, {:?}", x, y, lo, hi));
+                    }
+                }
+            }
+        }
+        if <$S as Number>::min_().bits() != <$S>::MIN.bits() || <$S as Number>::max_().bits() != <$S>::MAX.bits() {
+            return fail(format!("number:{}:min_max", name), "min_() / max_() are not the type's extremes");
+        }
+    }};
+}
+
+fn number_table() -> CheckResult {
+    number_row!(u64, pool_u64());
+    number_row!(i32, pool_i32());
+    number_row!(i64, pool_i64());
+    number_row!(usize, pool_usize());
+    number_row!(f32, pool_f32());
+    number_row!(f64, pool_f64());
+    Ok(())
+}
+
 fn tables(_t: Tier) -> impl Iterator<Item = TableCase> {
-    (0u8..4).map(|table| TableCase { table })
+    (0u8..5).map(|table| TableCase { table })
 }
 
 fn check_table(c: &TableCase, obs: &mut Obs) -> CheckResult {
@@ -429,6 +484,7 @@ fn check_table(c: &TableCase, obs: &mut Obs) -> CheckResult {
         0 => numeric_table(),
         1 => bool_string_table(),
         2 => time_table(),
+        3 => number_table(),
         _ => isnone_table(),
     }
 }
@@ -546,7 +602,7 @@ fn main() {
     let _ = Fail { sig: String::new(), detail: String::new() };
     let mut p = Property::new(
         "C15",
-        "exhaustive part (enumerated, 4 tables): every (source, target) pair among u8, u64, i32, i64, usize, isize, f32, f64 on per-type boundary pools (0, +-1, +-0.0, type extremes, extremes +-1, 2^24+1, 2^53+1, values beyond the target range, subnormals, +-inf, NaN): x.cast::<T>() == x as T bit for bit, null -> float is NaN, x.cast::<Option<T>>() is None exactly for nulls, Some(x) / None on either side compose; bool <-> numeric on {0,1}; numeric / Option <-> String round trips with nullness; time types: None / NaN -> NaT, NaT -> NaN / None, i64 <-> raw value for 4 units, Time, TimeDelta; IsNone predicate coherence, none(), from_opt, from_inner / unwrap identity, map, vabs for every implementor. \
+        "exhaustive part (enumerated, 5 tables): every (source, target) pair among u8, u64, i32, i64, usize, isize, f32, f64 on per-type boundary pools (0, +-1, +-0.0, type extremes, extremes +-1, 2^24+1, 2^53+1, values beyond the target range, subnormals, +-inf, NaN): x.cast::<T>() == x as T bit for bit, null -> float is NaN, x.cast::<Option<T>>() is None exactly for nulls, Some(x) / None on either side compose; bool <-> numeric on {0,1}; numeric / Option <-> String round trips with nullness; time types: None / NaN -> NaT, NaT -> NaN / None, i64 <-> raw value for 4 units, Time, TimeDelta; IsNone predicate coherence, none(), from_opt, from_inner / unwrap identity, map, vabs for every implementor; the Number conversion helpers (f32() .. usize(), to, fromas) == `as`, min_() / max_() are the type extremes, min_with / max_with pick an argument by value. \
          generated part: comparator triples over {null, small values with ties, extremes} for f64 / f32 / Option<f64> / Option<i32> / i32: reflexive, antisymmetric, transitive, values ascending (sort_cmp) / descending (sort_cmp_rev), nulls last in both; random f64 / i64 values through the numeric cast table. \
          Non-trivial: triples with one or two nulls; random values that are null or outside a target's range; distinct = distinct serialised cases",
     )
